@@ -619,6 +619,7 @@ _HANDLERS = {int.__new__: _h_int_new, float.__new__: _h_float_new, str.__new__: 
              _os.path.splitext: _h_splitext, _re.sub: _h_re_sub}
 
 _SYMSET = frozenset([SymBool, SymInt, SymReal, SymStr, SymTok, NumProxy, RealProxy])
+_PROXYSET = frozenset([SymTok, NumProxy, RealProxy])
 _BUILTIN_METHOD = type(''.join)
 _METHOD_DESCR = type(str.join)
 _STR_METHODS_SELF_CONCRETE = {'join', 'replace', 'startswith', 'endswith', 'find', 'rfind', 'index', 'count',
@@ -670,7 +671,13 @@ def _sx_call(f, *args, **kw):
                         return RealProxy(f, a)
                     if ta in (SymInt, NumProxy):
                         return RealProxy(f, SymReal(a.eng, z3.ToReal(a.z)))
-        return f(*args, **kw)
+        r = f(*args, **kw)
+        if type(r) in _PROXYSET and r.__class__ is f:
+            # type.__call__ skips __init__ because the proxy is not a real instance: run it ourselves
+            init = f.__init__
+            if type(init) is _FUNCTION:
+                init(r, *args, **kw)
+        return r
     if tf is _METHOD_DESCR or tf is _WRAPPER_DESCR:
         # unbound C methods such as str.__add__(self, other), dict.__getitem__(self, key), str.__len__(self)
         if args and (type(args[0]) in _SYMSET or (len(args) > 1 and type(args[1]) in _SYMSET)
